@@ -227,8 +227,6 @@ structure Bot where
   nick : Str
   /-- `irc.prefix` -/
   pfx : Str
-  /-- `irc.server` -/
-  server : Str
   /-- `irc.state.channels` (lowered name ↦ state) -/
   channels : List (Str × Chan) := []
   /-- `irc.state.nicksToHostmasks` (lowered nick ↦ hostmask) -/
@@ -242,8 +240,7 @@ def unsetDomain : Str := "unset.domain".toList
 
 /-- a fresh `Irc` object / the effect of `Irc.reset()` on the modelled fields -/
 def Bot.init (nick ident : Str) : Bot :=
-  { nick := nick, pfx := mkHostmask nick ident unsetDomain, server := "unset".toList,
-    cfgNick := nick, cfgIdent := ident }
+  { nick := nick, pfx := mkHostmask nick ident unsetDomain, cfgNick := nick, cfgIdent := ident }
 def Bot.reset (b : Bot) : Bot := Bot.init b.cfgNick b.cfgIdent
 
 /-- `ircutils.isChannel` with the default `chantypes` / `channellen` -/
@@ -504,7 +501,7 @@ def Bot.ircCmd (b : Bot) (m : Msg) : Bot × Bool :=
   | .chghost => b.ircChghost m
   | _ => (b, false)
 
-/-- `Irc.feedMsg` restricted to `irc.nick`, `irc.prefix`, `irc.server` and `irc.state` -/
+/-- `Irc.feedMsg` restricted to `irc.nick`, `irc.prefix` and `irc.state` (`irc.server` is not modelled) -/
 def Bot.feed (b : Bot) (m0 : Msg) : Bot × Exc :=
   -- "odd nick-instead-of-prefix" messages
   let m := if m0.pfx = b.nick then { m0 with pfx := if b.pfx.isEmpty then m0.pfx else b.pfx } else m0
@@ -515,8 +512,7 @@ def Bot.feed (b : Bot) (m0 : Msg) : Bot × Exc :=
       match m.args with
       | [] => (b, true)
       | a0 :: _ =>
-        let b := if a0 != b.nick then { b with nick := a0 } else b
-        (if m.pfx != b.server then { b with server := m.pfx } else b, false)
+        (if a0 != b.nick then { b with nick := a0 } else b, false)
     else (b, false)
   if r.2 then (r.1, .irc) else
   let r2 := r.1.ircCmd m
